@@ -22,6 +22,8 @@ POLLIN = 1
 DONTWAIT = 1
 SNDHWM, RCVHWM, LINGER, RECONNECT_IVL, RECONNECT_IVL_MAX, SUBSCRIBE, UNSUBSCRIBE = 23, 24, 17, 18, 21, 6, 7
 SNDTIMEO, RCVTIMEO, IMMEDIATE = 28, 27, 39
+SNDMORE, NOBLOCK = 2, 1
+COPY_THRESHOLD = 65536
 
 
 class Again(Exception):
@@ -30,6 +32,35 @@ class Again(Exception):
 
 class ZMQError(Exception):
     pass
+
+
+class NotDone(Exception):
+    pass
+
+
+class MessageTracker:
+    """pyzmq's MessageTracker for send(copy=False, track=True): done when libzmq no longer needs the caller's buffer, i.e. when
+    the message has left the sender's pipes (arrived at the peer, dropped, or the link is gone).  Parts that pyzmq copies (below
+    COPY_THRESHOLD, or copy=True) are done at once."""
+
+    def __init__(self, world):
+        self.world, self.holds = world, []          # [(link, queued message object)]
+
+    @property
+    def done(self):
+        return not any((not l.dead) and any(m is msg for m in l.queue) for l, msg in self.holds)
+
+    def wait(self, timeout=-1):
+        if self.done:
+            return
+        w = self.world
+        t = w.cur
+        if t is None:
+            raise NotDone()
+        deadline = None if timeout is None or timeout < 0 else w.time_ns() + int(timeout * 1e9)
+        t.park(('tracker', self, deadline))
+        if not self.done:
+            raise NotDone()
 
 
 class Killed(BaseException):
@@ -46,6 +77,9 @@ class World:
         self.local_clocks = local_clocks
         self.tick_ns = 100_000_000
         self.sub_rcvhwm = 0
+        self.rcvhwm_of = {}             # task name -> RCVHWM of its SUB sockets (flow control only)
+        self.flow_control = False       # True: a SUB pipe that holds RCVHWM messages takes no more (back pressure); the PUB pipe
+                                        # then fills up to SNDHWM on its own and drops from there on
         self.pub_hwm = pub_hwm          # override of PUB SNDHWM (messages per subscriber pipe), None = socket option
         self.bound = {}                 # normalised addr -> Socket (latest)
         self.links = []
@@ -103,6 +137,9 @@ class World:
                 if l.can_establish():
                     acts.append(('est', l))
             elif l.queue and not l.dst.closed:
+                if self.flow_control and len(l.dst.inbox) >= l.dst.opts.get(
+                        RCVHWM, self.rcvhwm_of.get(str(l.dst.owner).split('/')[0], self.sub_rcvhwm or 1000)):
+                    continue
                 acts.append(('dpub', l))
         for n, t in self.tasks.items():
             a = t.enabled_action()
@@ -207,6 +244,11 @@ class Task:
             return 'run' if self.wait[1].owner is None else None
         if kind == 'yield':
             return 'run'
+        if kind == 'tracker':
+            _, tr, deadline = self.wait
+            if tr.done:
+                return 'run'
+            return None if deadline is None else 'timeout'
         if kind == 'join':
             _, other, deadline = self.wait
             if other.state == 'done':
@@ -216,7 +258,8 @@ class Task:
 
     def deadline(self):
         w = self.wait
-        return {'poll': lambda: w[3], 'sleep': lambda: w[1], 'event': lambda: w[2], 'join': lambda: w[2]}[w[0]]()
+        return {'poll': lambda: w[3], 'sleep': lambda: w[1], 'event': lambda: w[2], 'join': lambda: w[2],
+                'tracker': lambda: w[2]}[w[0]]()
 
     def resume(self, timed_out=False):
         w = self.world
@@ -409,10 +452,29 @@ class Socket:
                 l.established = False
 
     # ---- data -------------------------------------------------------------------------------------------------------
-    def send_multipart(self, parts, flags=0, copy=True, track=False):
+    def send(self, data, flags=0, copy=True, track=False):
+        """one part of a (multipart) message; SNDMORE parts are held back until the last one"""
+        if not hasattr(self, '_more'):
+            self._more, self._more_trackers = [], []
+        byref = copy is False and not isinstance(data, (bytes, str)) and memoryview(data).nbytes >= COPY_THRESHOLD
+        self._more.append(data if byref else bytes(data))
+        tr = MessageTracker(self.world) if track else None
+        if tr is not None and byref:
+            self._more_trackers.append(tr)
+        if flags & SNDMORE:
+            return tr
+        parts, trackers = self._more, self._more_trackers
+        self._more, self._more_trackers = [], []
+        placed = self.send_multipart(parts, flags & ~SNDMORE, copy=False, _placed=True) or []
+        for t in trackers:
+            t.holds = list(placed)
+        return tr
+
+    def send_multipart(self, parts, flags=0, copy=True, track=False, _placed=False):
         w = self.world
+        placed = []
         if self.closed or (w.cur is not None and w.cur.killed):
-            return
+            return MessageTracker(w) if track else (placed if _placed else None)
         # pyzmq copies the parts at send time unless copy=False, in which case buffers of COPY_THRESHOLD (64 KiB) or more are
         # handed to libzmq by reference and read by its I/O thread later: their bytes are fixed only when the message leaves
         if copy is False:
@@ -430,11 +492,12 @@ class Socket:
                 hwm = w.pub_hwm if w.pub_hwm is not None else self.opts.get(SNDHWM, 1000)
                 # what is queued towards one subscriber is bounded by the publisher's SNDHWM plus the subscriber's RCVHWM;
                 # `sub_rcvhwm` = the library default of the latter (0: the strict single bound the specification's PubHWM means)
-                hwm += l.dst.opts.get(RCVHWM, w.sub_rcvhwm)
-                if len(l.queue) + len(l.dst.inbox) >= hwm:
+                hwm += 0 if w.flow_control else l.dst.opts.get(RCVHWM, w.sub_rcvhwm)
+                if len(l.queue) + (0 if w.flow_control else len(l.dst.inbox)) >= hwm:
                     w.emit('pubdrop', self.owner, l.dst.owner, parts)
                     continue
                 l.queue.append(parts)
+                placed.append((l, parts))
         elif self.type == PUSH:
             l = self.out_links[-1] if self.out_links else None
             if l is None or len(l.queue) >= self.opts.get(SNDHWM, 1000):
@@ -448,8 +511,15 @@ class Socket:
                 raise Again()
             w.emit('req', self.owner, self.addr, parts, getattr(w.cur, 'inc', 0), w.step_no)
             l.queue.append(parts)
+            placed.append((l, parts))
         else:
             raise ZMQError('send on a receive-only socket')
+        if track:
+            tr = MessageTracker(w)
+            if copy is False and any(isinstance(p, _LateBytes) for p in parts):
+                tr.holds = placed
+            return tr
+        return placed if _placed else None
 
     def recv_multipart(self, flags=0, copy=True, track=False):
         if not self.inbox:
